@@ -1163,11 +1163,18 @@ C**********************************************************************
       XX=1D0/X
       Z(L)=1D0/(DFLOAT(2*L+1)*XX)
       L1=L-1
+C     (a ratio j(n)/j(n-1) whose denominator vanishes to the last bit --
+C     j(n-1)(x)=0, e.g. j0 at x = 7 pi -- is replaced by a huge finite one;
+C     the products below then give the right j(n))
       DO 5 I=1,L1
          I1=L-I
-         Z(I1)=1D0/(DFLOAT(2*I1+1)*XX-Z(I1+1))
+         DEN=DFLOAT(2*I1+1)*XX-Z(I1+1)
+         IF (DEN.EQ.0D0) DEN=1D-30
+         Z(I1)=1D0/DEN
     5 CONTINUE
-      Z0=1D0/(XX-Z(1))
+      DEN=XX-Z(1)
+      IF (DEN.EQ.0D0) DEN=1D-30
+      Z0=1D0/DEN
 C     j0 = Z0*cos(x)/x = sin(x)/x; the first form is 0/0 when cos(x)=0
 C     (x an odd multiple of pi/2), the second loses all accuracy in
 C     Y1=Y0*Z(1) when sin(x)=0: take the well-conditioned one
@@ -1238,12 +1245,15 @@ C**********************************************************************
          QF=DFLOAT(2*I1+1)
          AR=QF*CXXR-CZR(I1+1)
          AI=QF*CXXI-CZI(I1+1)
+C        (as in RJB: an exactly vanishing denominator)
+         IF (AR*AR+AI*AI.EQ.0D0) AR=1D-30
          ARI=1D0/(AR*AR+AI*AI)
          CZR(I1)=AR*ARI
          CZI(I1)=-AI*ARI
       ENDDO   
       AR=CXXR-CZR(1)
       AI=CXXI-CZI(1)
+      IF (AR*AR+AI*AI.EQ.0D0) AR=1D-30
       ARI=1D0/(AR*AR+AI*AI)
       CZ0R=AR*ARI
       CZ0I=-AI*ARI
